@@ -1,6 +1,7 @@
 """C09 - path-data parsing is total: any string returns or raises ValueError only."""
 import ast
 
+from .. import builders as BLD
 from .. import pathlex as PL
 from .. import rx
 from ..model import AnalysisError, attr_chain, call_name, stmts_in
@@ -373,41 +374,32 @@ def inline_close(ctx, branches):
                     slots.setdefault(meth, set()).add(i)
     for meth in sorted(slots):
         fn = ctx.fn("Path.%s" % meth, "R09.5")
-        # parameters tested against ("z", "Z")
-        tested = set()
-        for c in ast.walk(fn):
-            if isinstance(c, ast.Compare) and isinstance(c.ops[0], ast.In) and isinstance(c.comparators[0], (ast.Tuple, ast.List, ast.Set)):
-                vals = {x.value for x in c.comparators[0].elts if isinstance(x, ast.Constant)}
-                if vals == {"z", "Z"} and isinstance(c.left, ast.Name):
-                    tested.add(c.left.id)
-        # map tested locals back to `points[index + k]`
-        pos = {}
-        vararg = fn.args.vararg.arg if fn.args.vararg else None
-        for s in ast.walk(fn):
-            if isinstance(s, ast.Assign) and isinstance(s.targets[0], ast.Name) and isinstance(s.value, ast.Subscript) \
-                    and isinstance(s.value.value, ast.Name) and s.value.value.id == vararg:
-                sl = s.value.slice
-                k = None
-                if isinstance(sl, ast.Name):
-                    k = 0
-                elif isinstance(sl, ast.BinOp) and isinstance(sl.op, ast.Add) and isinstance(sl.right, ast.Constant):
-                    k = sl.right.value
-                elif isinstance(sl, ast.Constant):
-                    k = sl.value
-                if k is not None:
-                    pos[k] = s.targets[0].id
         for i in sorted(slots[meth]):
-            ctx.ob("R09.5", "Path.%s[operand %d accepts inline close]" % (meth, i), pos.get(i) in tested, "tested locals %s, operand map %s" % (sorted(tested), pos), fn.lineno,
+            plain = BLD.summarise(ctx, "R09.5", meth, BLD.Scenario())
+            zsc = BLD.summarise(ctx, "R09.5", meth, BLD.Scenario(z=i))
+            tested = i in plain.ztests
+            resolved = bool(zsc.segs) and not any(a == ("op", i) for g in zsc.segs for a in g.args) and any(isinstance(a, tuple) and a and a[0] == "zpoint" for g in zsc.segs for a in g.args)
+            ctx.ob("R09.5", "Path.%s[operand %d accepts inline close]" % (meth, i), tested and resolved, "slots tested against z: %s; with z in slot %d the builder appends %s" % (sorted(plain.ztests), i, zsc.segs), fn.lineno,
                    "the lexer may pass 'z'/'Z' in this slot (SVG 2 segment-completing close); the builder must resolve it to the subpath start")
     # stride of the builder loop equals the number of operands the lexer passes
     for meth, ns in sorted(arity.items()):
         fn = ctx.fn("Path.%s" % meth, "R09.5")
-        stride = None
-        for s in ast.walk(fn):
-            if isinstance(s, ast.For) and isinstance(s.iter, ast.Call) and isinstance(s.iter.func, ast.Name) and s.iter.func.id == "range":
-                a = s.iter.args
-                stride = a[2].value if len(a) == 3 and isinstance(a[2], ast.Constant) else 1
+        if fn.args.vararg is None:
+            continue
+        summ = BLD.summarise(ctx, "R09.5", meth, BLD.Scenario())
+        stride = summ.stride
         if stride is None:
             continue
         ctx.ob("R09.5", "Path.%s[stride]" % meth, ns == {stride}, "lexer passes %s operand(s) per call, builder consumes %s" % (sorted(ns), stride), fn.lineno,
                "operand count and builder stride differ: IndexError or dropped operands")
+        used = sorted({a[1] for g in summ.segs for a in g.args if isinstance(a, tuple) and a and a[0] == "op"} | {a[1][1] for g in summ.segs for a in g.args if isinstance(a, tuple) and a and a[0] == "abs"})
+        scal = set()
+        for g in summ.segs:
+            for a in g.args:
+                if isinstance(a, list):
+                    for c in a:
+                        scal |= {int(x[2:]) for x in c.atoms() if x.startswith("op") and x[2:].isdigit()}
+        ctx.ob("R09.5", "Path.%s[operands used]" % meth, sorted(set(used) | scal) == list(range(stride)), "operand slots reaching the segment: %s of %d" % (sorted(set(used) | scal), stride), fn.lineno,
+               "every operand of a group reaches the segment (none dropped, none read beyond the group)", sample=False)
+
+
